@@ -876,7 +876,11 @@ func runCheck(id, tier string) int {
 			ok2, sig2 = replayCrash(bin, id, path, nv.v.Sig)
 		} else if !strings.HasSuffix(nv.v.Sig, "|no-progress") && !strings.Contains(nv.v.Sig, "|data-race|") { // a hang is not re-run; a race is a sampled observation
 			ok1, sig1 = replayOnce(bin, id, path)
-			ok2, sig2 = replayOnce(bin, id, path)
+			if strings.HasPrefix(sig1, "<replay did not finish") {
+				ok2, sig2 = ok1, sig1 // the case hangs the server under test: once is enough
+			} else {
+				ok2, sig2 = replayOnce(bin, id, path)
+			}
 		}
 		confirmed := ok1 && ok2 && sig1 == nv.v.Sig && sig2 == nv.v.Sig
 		if !confirmed {
@@ -908,7 +912,7 @@ func runCheck(id, tier string) int {
 
 // replayCrash re-runs a case that killed the process and checks it dies the same way.
 func replayCrash(bin, id, path, wantSig string) (bool, string) {
-	ctx, cancel := context.WithTimeout(context.Background(), 10*time.Minute)
+	ctx, cancel := context.WithTimeout(context.Background(), 3*time.Minute)
 	defer cancel()
 	cmd := exec.CommandContext(ctx, bin, "-prop", id, "-replay", path, "-out", os.DevNull)
 	out, _ := cmd.CombinedOutput()
@@ -926,12 +930,12 @@ func replayOnce(bin, id, path string) (bool, string) {
 	defer os.Remove(out)
 	// a replayed case may hang the server under test (that is what some violations are):
 	// never wait for it longer than ten minutes
-	ctx, cancel := context.WithTimeout(context.Background(), 10*time.Minute)
+	ctx, cancel := context.WithTimeout(context.Background(), 3*time.Minute)
 	defer cancel()
 	cmd := exec.CommandContext(ctx, bin, "-prop", id, "-replay", path, "-out", out)
 	cmd.Run()
 	if ctx.Err() != nil {
-		return false, "<replay did not finish within 10 minutes>"
+		return false, "<replay did not finish within 3 minutes>"
 	}
 	b, err := os.ReadFile(out)
 	if err != nil {
